@@ -116,11 +116,23 @@ def lookup (k : Nat × List KeyAtom) : List (Query × Res) → Option (Query × 
 def eraseAt (c : Cache) (i : Nat) : Cache := fun j => if j = i then [] else c j
 def eraseMany (c : Cache) (l : List Nat) : Cache := l.foldl eraseAt c
 
-/-- mirrors base.py `_erase_cache_up`: the node, then every live lock parent, transitively (fuel: parents are older) -/
-def eraseUpF : Nat → Heap → Cache → Nat → Cache
-  | 0, _, c, i => eraseAt c i
-  | n + 1, h, c, i =>
-    ((parentsOf h i).filter (fun p => live h p)).foldl (fun acc p => eraseUpF n h acc p) (eraseAt c i)
+def addNew (acc : List Nat) (x : Nat) : List Nat := if acc.contains x then acc else acc ++ [x]
+/-- the same elements, once each (the `_seen` set of `_erase_cache_up`) -/
+def dedup (l : List Nat) : List Nat := l.foldl addNew []
+
+/-- the live lock parents of the nodes of a frontier, once each -/
+def parentsUp (h : Heap) (fr : List Nat) : List Nat :=
+  dedup (fr.flatMap (fun i => (parentsOf h i).filter (fun p => live h p)))
+
+/-- one generation after the other: reset the frontier, move on to its live lock parents -/
+def eraseLv : Nat → Heap → Cache → List Nat → Cache
+  | 0, _, c, fr => eraseMany c fr
+  | n + 1, h, c, fr => eraseLv n h (eraseMany c fr) (parentsUp h fr)
+
+/-- mirrors base.py `_erase_cache_up`: the node, then every live lock parent, transitively.  The code walks depth-first with a
+`_seen` set; the model resets the same tensordicts generation by generation (each generation de-duplicated, `n + 1` generations:
+a lock parent that holds the node is older, derived parents of lazy stacks are bounded by the number of objects). -/
+def eraseUpF (n : Nat) (h : Heap) (c : Cache) (i : Nat) : Cache := eraseLv n h c [i]
 
 /-- the value a fresh computation returns -/
 def freshValue (sem : Sem) (h : Heap) (i : Nat) (q : Query) : Content := sem.obs q.sem (content h i)
